@@ -811,7 +811,7 @@ func (fe *FnExec) doReturn(st *State, x *ssa.Return) {
 }
 
 func internalClause(text string) bool {
-	return strings.Contains(text, "ncalls(") || strings.Contains(text, "callarg(") || strings.Contains(text, "callres(") || strings.Contains(text, "happened(") || strings.Contains(text, "callseq(") || strings.Contains(text, "sitearg(") || strings.Contains(text, "siteres(") || strings.Contains(text, "sitehappened(")
+	return strings.Contains(text, "ncalls(") || strings.Contains(text, "callarg(") || strings.Contains(text, "callres(") || strings.Contains(text, "happened(") || strings.Contains(text, "callseq(") || strings.Contains(text, "atcall(") || strings.Contains(text, "sitearg(") || strings.Contains(text, "siteres(") || strings.Contains(text, "sitehappened(")
 }
 
 var _ = sort.Strings
